@@ -124,7 +124,10 @@ Definition submit (check : bool) (verdict : option Z) (id : Z) (D : list Z) (s :
   let j := next s in
   let s := set_cont j id s in
   match (if check then verdict else None) with
-  | Some e => submit_tail (Some j) (set_stat j ST_INVALID (set_errno e s))
+  | Some e =>
+      (* a rejected job still takes its slot: when that slot was the last free one, complete_job(earliest) runs
+         as for an accepted job, hence the oracle applies on this path too (the rejected slot keeps INVALID) *)
+      submit_tail (Some j) (set_stat j ST_INVALID (complete_set D (set_errno e s)))
   | None =>
       let s := complete_set D (set_stat j ST_PROC s) in
       submit_tail (if is_done s j then Some j else None) s
